@@ -30,10 +30,18 @@ RestOK(line) ==
    /\ Len(line.rest) = Len(line.sent)
    /\ \A r \in DOMAIN line.sent : line.rest[r] = [b |-> SubSeq(line.sent[r], pos[r] + 1, Len(line.sent[r]))]
 
+(* a concurrent case: conc[r] = the distinct (verdict, bytes read back) outcomes of response r over all rounds *)
+ConcOK(line) ==
+   /\ Len(line.conc) = Len(line.c.resps)
+   /\ \A r \in DOMAIN line.conc : line.conc[r] = <<[v |-> Verdicts(line.c)[r], b |-> line.sent[r]]>>
+
 IsAbn(o) == \/ ("x" \in DOMAIN o /\ o.x \in {"panic", "crash", "hang"})
             \/ ("v" \in DOMAIN o /\ o.v \in {"panic", "crash", "hang"})
 Failed(line) ==
    IF line.doc # "ok" THEN {"document_rejected"}
+   ELSE IF "conc" \in DOMAIN line.c
+   THEN (IF "conc" \in DOMAIN line /\ Len(line.sent) = Len(line.c.resps) /\ ConcOK(line) THEN {}
+         ELSE {"concurrent_validations_each_keep_their_own_body_and_verdict"})
    ELSE LET st == line.c.steps  n == Len(line.c.resps)  realised == Len(line.sent) = n /\ \A i \in DOMAIN st : StepOK(st[i], n) IN
    (IF (\E i \in DOMAIN line.obs : IsAbn(line.obs[i])) \/ (\E i \in DOMAIN line.rest : IsAbn(line.rest[i])) THEN {"no_panic"} ELSE {})
    \cup (IF realised THEN {} ELSE {"case_realised"})
@@ -46,7 +54,8 @@ LineOK(line) ==
    LET bad == Failed(line) IN
    bad = {} \/ CSVWrite("%1$s", <<ToJson([case |-> line.case, c |-> line.c, failed |-> bad,
                                            obs |-> IF "obs" \in DOMAIN line THEN line.obs ELSE <<>>,
-                                           rest |-> IF "rest" \in DOMAIN line THEN line.rest ELSE <<>>, class |-> "none"])>>,
+                                           rest |-> IF "rest" \in DOMAIN line THEN line.rest ELSE <<>>,
+                                           conc |-> IF "conc" \in DOMAIN line THEN line.conc ELSE <<>>, class |-> "none"])>>,
                         "violations.ndjson")
 Judge == l > 0 => LineOK(Trace[l])
 AllConsumed == TLCGet("stats").diameter = Len(Trace) + 1
